@@ -671,3 +671,23 @@ Proof.
   rewrite group_cases. destruct ((v <? 0) || (U <? v)) eqn:E0; [discriminate|].
   destruct (_ && _) eqn:E; [|discriminate]. intros H; inversion H; subst. lia.
 Qed.
+
+(* ------------------------------------------------------------------ every position update of the iterator is checked *)
+Lemma advance_by_no_panic pos size : advance_by pos size <> Panic.
+Proof. rewrite advance_by_cases. destruct (_ <? _); discriminate. Qed.
+Lemma advance_by_fits pos size p : advance_by pos size = Ok p -> Z.of_N p = Z.of_N pos + Z.of_N size /\ Z.of_N p <= U.
+Proof. rewrite advance_by_cases. destruct (_ <? _) eqn:E; [discriminate|]. intros H; inversion H; subst. lia. Qed.
+(* the padding of a label (#labelalign) and of #align: the padded position is a usize or the directive is an error *)
+Lemma align_position_fits mb b pos al p : align_position mb b pos al = Ok p -> (pos <= p)%N /\ Z.of_N p <= U.
+Proof.
+  unfold align_position. destruct (cur_address_in_bits mb b pos) as [ca| |]; try discriminate.
+  destruct (bits_until_alignment ca al) as [pad| |]; try discriminate.
+  unfold checked_position. spec_cadd pos pad; [|discriminate]. intros H; inversion H; subst. lia.
+Qed.
+Lemma addr_position_fits mb b a p : addr_position mb b a = Ok p -> Z.of_N p <= U.
+Proof.
+  unfold addr_position. destruct (bk_addr b <=? a); [|intros H; inversion H; subst; unfold U; lia].
+  destruct (big_sub mb a (bk_addr b)); try discriminate. unfold checked_position.
+  match goal with |- context [Cursor.checked_mul ?x ?y] => pose proof (checked_mul_spec x y) as Hc; destruct (Cursor.checked_mul x y) end;
+    [|discriminate]. intros H; inversion H; subst. destruct Hc as (-> & Hc). lia.
+Qed.
